@@ -58,31 +58,76 @@ UNITS = {
         'complete': True, 'timeout': 300,
         'title': 'RecursionCheck in place: limit enforced exactly, check_recursion balanced, every counter value',
     },
-    'K8': {
+    'V5': {
+        'engine': 'verus', 'complete': True,
+        'title': 'toml_datetime Datetime::from_str == date-time grammar (O-dt) on EVERY string (unbounded)',
+        'witness': ['witness-k3'], 'replay': 'replay-k3',
+    },
+    # ---------------------------------------------------------------- Kani, complete per fixed input width
+    'K2': {
         'engine': 'kani', 'crate': 'toml_edit',
-        'harnesses': ['k8_post_n1', 'k8_post_n2', 'k8_post_n3', 'k8_post_n4'],
-        'complete': False, 'bound': 'every valid UTF-8 input of 1..4 bytes x every index', 'timeout': 1500,
-        'title': 'translate_position: in-place kani::requires/ensures contract == O-pos line_col (bounded input length)',
-        'witness': ['witness-k8'], 'replay': 'replay-k8',
+        'harnesses': ['k2_date_month', 'k2_date_mday', 'k2_time_hour', 'k2_time_minute', 'k2_time_second'],
+        'complete': True, 'timeout': 900,
+        'title': 'document grammar 2-digit field parsers == O-date ranges/values on every 3-byte input (2 digits + lookahead)',
+        'witness': ['witness-k3'], 'replay': 'replay-k3',
+    },
+    'K2y': {
+        'engine': 'kani', 'crate': 'toml_edit', 'harnesses': ['k2_date_fullyear'], 'complete': True, 'timeout': 900,
+        'title': 'document grammar date-fullyear == 4 digits value on every 5-byte input',
+        'witness': ['witness-k3'], 'replay': 'replay-k3',
     },
     'K3q': {
         'engine': 'kani', 'crate': 'toml_datetime', 'harnesses': ['k3_short', 'k3_time8'], 'complete': True,
-        'timeout': 900,
-        'title': 'Datetime::from_str == O-dt on every string of <= 3 bytes and every 8-byte string (complete per width)',
+        'timeout': 1200,
+        'title': 'Datetime::from_str == O-dt in situ on every string of <= 3 bytes and every 8-byte string',
         'witness': ['witness-k3'], 'replay': 'replay-k3',
+    },
+    'K3t': {
+        'engine': 'kani', 'crate': 'toml_datetime',
+        'harnesses': ['k3_len4', 'k3_len5', 'k3_len6', 'k3_len7', 'k3_len9', 'k3_date10', 'k3_frac1', 'k3_frac3'],
+        'complete': True, 'timeout': 2400,
+        'title': 'Datetime::from_str == O-dt in situ on every string of 4-7, 9, 10 bytes; "12:34:56." + every 1- and 3-byte tail',
+        'witness': ['witness-k3'], 'replay': 'replay-k3',
+    },
+    'K3a': {
+        'engine': 'kani', 'crate': 'toml_datetime', 'harnesses': ['k3a_len11', 'k3a_len12'], 'complete': False,
+        'bound': 'every ASCII string of 11 and 12 bytes', 'timeout': 2400,
+        'title': 'Datetime::from_str == O-dt in situ on every ASCII string of 11 and 12 bytes (bounded: ASCII only)',
+        'witness': ['witness-k3'], 'replay': 'replay-k3',
+    },
+    'K5': {
+        'engine': 'kani', 'crate': 'toml_edit', 'harnesses': ['k5_hexescape4', 'k5_hexescape8'], 'complete': True,
+        'timeout': 3000, 'max_jobs': 4,
+        'title': 'hexescape::<4>/<8> == O-esc hex_scalar on every 5- / 9-byte input (digits + lookahead)',
+    },
+    'K8': {
+        'engine': 'kani', 'crate': 'toml_edit',
+        'harnesses': ['k8_post_n1', 'k8_post_n2', 'k8_post_n3'],
+        'complete': False, 'bound': 'every valid UTF-8 input of 1..3 bytes x every index', 'timeout': 1500,
+        'title': 'translate_position: in-place kani::requires/ensures contract == O-pos line_col (bounded input length 1..3)',
+        'witness': ['witness-k8'], 'replay': 'replay-k8',
+    },
+    'K8t': {
+        'engine': 'kani', 'crate': 'toml_edit',
+        'harnesses': ['k8_post_n4', 'k8_nopanic_n3'],
+        'complete': False, 'bound': 'every valid UTF-8 input of 4 bytes x every index; every 3-byte input (any bytes) for panic freedom',
+        'timeout': 3000,
+        'title': 'translate_position contract on 4-byte inputs; panic freedom on arbitrary 3-byte inputs (bounded)',
+        'witness': ['witness-k8'], 'replay': 'replay-k8',
     },
 }
 
 # property -> tier -> unit list
 PLAN = {
     'C10': {'quick': ['V1', 'K1'], 'thorough': ['V1', 'K1']},
-    'C04': {'quick': ['V1', 'V3', 'V4', 'K1'], 'thorough': ['V1', 'V3', 'V4', 'K1', 'K12']},
+    'C04': {'quick': ['V1', 'V3', 'V4', 'V5', 'K1', 'K12'], 'thorough': ['V1', 'V3', 'V4', 'V5', 'K1', 'K12', 'K8t', 'K3t']},
     'C11': {'quick': ['K7', 'K6e', 'K6t'], 'thorough': ['K7', 'K6e', 'K6t']},
-    'C01': {'quick': ['K1', 'K7', 'V4'], 'thorough': ['K1', 'K7', 'V4']},
+    'C01': {'quick': ['K1', 'K7', 'V4', 'K2'], 'thorough': ['K1', 'K7', 'V4', 'K2', 'K2y', 'K5']},
+    'C02': {'quick': ['K2', 'V5'], 'thorough': ['K2', 'K2y', 'V5', 'K5']},
     'C05': {'quick': ['V3', 'K12'], 'thorough': ['V3', 'K12']},
+    'C12': {'quick': ['V4', 'V5', 'K2', 'K3q'], 'thorough': ['V4', 'V5', 'K2', 'K2y', 'K3q', 'K3t', 'K3a']},
     'C14': {'quick': ['K11'], 'thorough': ['K11']},
-    'C15': {'quick': ['K8'], 'thorough': ['K8']},
-    'C12': {'quick': ['V4', 'K3q'], 'thorough': ['V4', 'K3q']},
+    'C15': {'quick': ['K8'], 'thorough': ['K8', 'K8t']},
 }
 
 LEVEL = 'proof'
